@@ -95,7 +95,10 @@ def drive(eng, kind_, dt_e, r, mode):
             k = int(round((t_now - t_prev) / dt_e))
         t_prev = t_now
         return k
-    while cont and total < MAXIT:
+    ncalls = 0
+    call_cap = {"run1": 30000, "run2": 15000, "run5": 6000, "run1000": 60}.get(mode, MAXIT)
+    while cont and total < MAXIT and ncalls < call_cap:
+        ncalls += 1
         if mode == "iterate":
             cont = eng.iterate()
             total += 1
@@ -188,6 +191,13 @@ def run_extras(case):
     sd, idx = case["seed"], case["idx"]
     bad, counts = [], {}
     desc, kind_, script, info = build_script(sd, idx)
+    # simulate_script() runs to completion without a cap: only use scripts that complete within the harness cap
+    probe = engines.get(kind_)
+    probe.setup(script)
+    unfinished = probe.iterate_n(MAXIT)
+    probe.finalize()
+    if unfinished:
+        return {"bad": [], "counts": {"extras_skipped_iteration_cap": 1}, "info": info}
     # drawn seed: rng_seed=None
     s2 = script.copy()
     s2.rng_seed = None
@@ -258,7 +268,7 @@ def main():
     try:
         if thorough:
             hogs = [subprocess.Popen([PY, "-c", "while True: pass"]) for _ in range(ncpu())]
-        ref_res = pmap("vf.checks.c08:reference", refs, fresh=True, cpu_budget=600)
+        ref_res = pmap("vf.checks.c08:reference", refs, fresh=True, cpu_budget=120)
         import random
         rr = random.Random(sd)
         variants = []
@@ -267,10 +277,13 @@ def main():
                 variants.append({"seed": sd, "idx": i, "variant": v, "mode": MODES[v % len(MODES)] if v < len(MODES) else rr.choice(MODES),
                                  "reuse": rr.random() < 0.5,
                                  "history": [rr.randrange(nscripts) + 100000 for _ in range(rr.choice([0, 0, 1, 2, 3]))]})
+        # scripts whose reference hit the harness iteration cap have nothing comparable: do not run their variants
+        done_ok = {c["idx"] for c, r_ in zip(refs, ref_res) if r_["status"] == "ok" and r_["value"]["complete"]}
+        variants = [v for v in variants if v["idx"] in done_ok]
         rr.shuffle(variants)
-        var_res = pmap("vf.checks.c08:run_variant", variants, cpu_budget=900, share_size=12)
-        extras = [{"seed": sd, "idx": i} for i in range(nscripts)]
-        ex_res = pmap("vf.checks.c08:run_extras", extras, cpu_budget=900)
+        var_res = pmap("vf.checks.c08:run_variant", variants, cpu_budget=180, share_size=12)
+        extras = [{"seed": sd, "idx": i} for i in range(nscripts) if i in done_ok]
+        ex_res = pmap("vf.checks.c08:run_extras", extras, cpu_budget=240)
     finally:
         for h in hogs:
             h.kill()
